@@ -139,7 +139,7 @@ theorem mergeTrees_comm : ∀ (fuel : Nat), MtComm (mergeTrees fuel) (mergeTrees
     · exact comm_bind (ih _ _) (fun x _ => rfl)
     · rename_i bl br
       rw [normBranches_eq, normBranches_eq]
-      exact comm_bind (mergeBranchesWith_comm ih bl br) (fun x _ => by simp [Except.map, normBranches_eq])
+      exact comm_bind (mergeBranchesWith_comm ih bl br) (fun x _ => by simp [Except.map])
 
 theorem deepMerge_comm (mfuel : Nat) (fs : List SField) :
     deepMerge mfuel (fs.map normField) = (deepMerge mfuel fs).map (List.map normField) :=
